@@ -212,6 +212,8 @@ impl Op {
             | Op::TryRLock { .. }
             | Op::TryWLock { .. }
             | Op::Recv { .. }
+            // (did the spin loop have to wait? 0 / 1)
+            | Op::Await { .. }
             | Op::TryRecv { .. }
             | Op::ArcDrop { .. }
             | Op::ArcCount { .. }
